@@ -94,7 +94,7 @@ class C04(Check):
     def run(self, name, fault_at):
         req = self.reqs[name]
         v1 = name.startswith("v1-")
-        dev = PowHsm(seed=b"c04")
+        dev = dialogues.configure(PowHsm(seed=b"c04"), name)
         w = World(dev)
         if fault_at is not None:
             idx, fault = fault_at
